@@ -275,6 +275,18 @@ pub fn run(args: &Args) -> Report {
                     tags = vec![vec!["e".into(), hex(&victim.sem.id)]];
                 }
             }
+            // an event that is already stored arrives again, byte for byte except for its signature (a re-signed copy has
+            // the same id): whatever the store answers, the stored - and referenced - bytes stay as they are
+            if k % 13 == 12 {
+                if let Some(old) = events.get(k / 3) {
+                    let mut sem = old.sem.clone();
+                    sem.sig = [0x77; 64];
+                    if let Some(twin) = Ev::new(sem) {
+                        let _ = store.store_event(&pocket_types::OwnedEvent(twin.bytes.clone()));
+                        rep.count("resubmissions_with_another_signature");
+                    }
+                }
+            }
             // an event of exactly the size of one that was just removed comes next (its space must not be handed out)
             let mut same_size_as_removed: Option<std::rc::Rc<Ev>> = None;
             if k % 11 == 10 {
@@ -479,6 +491,7 @@ pub fn run(args: &Args) -> Report {
         rep.require("tail_replacements_of_a_referenced_event", "no referenced event was replaced while it was the newest in the map");
         rep.require("tail_removals_of_a_referenced_event", "no referenced event was removed while it was the newest in the map");
         rep.require("concurrent_stores_by_another_thread_refused", "no refused store ran on another thread while references were held");
+        rep.require("resubmissions_with_another_signature", "no stored event was resubmitted with another signature");
         rep.require("referenced_ephemeral_events", "no ephemeral event was stored and referenced");
         rep.require("events_larger_than_two_growth_steps", "no event larger than two growth steps was stored");
         if debug {
